@@ -49,9 +49,22 @@ func exec(op string, args []string) []string {
 	default:
 		return []string{"bad-op"}
 	}
+	// a query that never returns must not take the whole shard with it: it is abandoned after hangLimit and reported
+	// as `hung` (the goroutine is left behind), so that the case itself is the replay
+	inner := run
+	run = func() []string {
+		ch := make(chan []string, 1)
+		go func() { ch <- inner() }()
+		select {
+		case out := <-ch:
+			return out
+		case <-time.After(timeout + hangLimit):
+			return []string{"hung", "late"}
+		}
+	}
 	started := time.Now()
 	out := run()
-	if time.Since(started) > timeout+stallMargin {
+	if time.Since(started) > timeout+stallMargin && (len(out) == 0 || out[0] != "hung") {
 		// the call took far longer than its timeout: either the machine stalled (all shards of a run show it at the
 		// same moment; datagrams are then lost or read after the deadline) or the code really overran its deadline.
 		// Once more: a real overrun reproduces and is reported (`late`), a stall does not.
@@ -62,6 +75,9 @@ func exec(op string, args []string) []string {
 
 // stallMargin: a call that outlives its timeout by this much is repeated once (see exec).
 const stallMargin = 500 * time.Millisecond
+
+// hangLimit: how long past its timeout a call may run before it is given up as hung
+const hangLimit = 8 * time.Second
 
 const tmo = "150"
 
